@@ -100,6 +100,13 @@ func (w *World) verifyFunc(fn *ssa.Function, c *Contract) *FnRun {
 	cv := r.oblig(st, "cover", "requires", nil, "false", "precondition is satisfiable (must be SAT)", c.Serves)
 	cv.Cover = true
 	r.execBlock(st, fn.Blocks[0], nil)
+	// an assert_at clause whose call site no longer exists asserts nothing: that is a failed
+	// obligation, not a silent pass
+	for _, aa := range c.AssertAt {
+		if !assertAtHit[aa] {
+			r.unstatable(st, "assert", sanitize(aa.Callee), aa.Clause, fmt.Errorf("no call site matches %q", aa.Callee))
+		}
+	}
 	return r
 }
 
